@@ -297,6 +297,92 @@ def read_ahead_fragmenter(repo, f, hier):
     return sorted(set(p2)), sorted(set(p3)), sorted(set(p4)), wterms, 'normal-if-has-next', n_paths
 
 
+K_WANT = [6]
+
+
+def _fast_path_bound(conds, item: str, max_param: str) -> Optional[int]:
+    """the largest k such that a condition on the path says ``len(item) + k <= limit`` (None when no condition bounds the
+    length of ``item`` by the limit)"""
+    from ..provider_model import parse_cond
+    best = None
+    want_len = ('len', item)
+    for c_ in conds:
+        pol, e = parse_cond(c_)
+        if e is None or not (isinstance(e, ast.Compare) and len(e.ops) == 1):
+            continue
+        op = e.ops[0]
+        l, r = aff_of_term(norm(e.left)), aff_of_term(norm(e.comparators[0]))
+        if l is None or r is None:
+            continue
+        # bring to the form  lhs <= rhs  (strict comparisons tighten by one)
+        forms = []
+        if pol and isinstance(op, ast.LtE):
+            forms.append((l, r, 0))
+        elif pol and isinstance(op, ast.Lt):
+            forms.append((l, r, 1))
+        elif pol and isinstance(op, ast.GtE):
+            forms.append((r, l, 0))
+        elif pol and isinstance(op, ast.Gt):
+            forms.append((r, l, 1))
+        elif not pol and isinstance(op, ast.Gt):
+            forms.append((l, r, 0))
+        elif not pol and isinstance(op, ast.GtE):
+            forms.append((l, r, 1))
+        elif not pol and isinstance(op, ast.Lt):
+            forms.append((r, l, 0))
+        elif not pol and isinstance(op, ast.LtE):
+            forms.append((r, l, 1))
+        for lhs, rhs, strict in forms:
+            d = lhs - rhs          # d <= -strict
+            if d.terms.get(want_len) == 1 and d.terms.get(('var', max_param)) == -1 and len(d.terms) == 2:
+                k = d.const + strict
+                best = k if best is None else max(best, k)
+    return best
+
+
+def fast_path_problems(repo, hier) -> Tuple[List[str], int]:
+    """PDUs that DIMSEMessage.encode builds from a whole message, not from a fragment of the fragmenter: the path must bound the
+    message by limit - overhead (shared by C06.S5 and C10.X8) -> (problems, number of such yields)"""
+    import struct as _st
+    enc = repo.func('dimsemessages', 'DIMSEMessage.encode')
+    c = SymClient(repo, enc, event_of=ev_kind, hierarchy=hier, inline=repo.is_helper)
+    c.run(empty_state())
+    max_param = enc.params[2]
+    frag_calls = [e_.args for e_, _s in c.log if e_.kind in ('fragment', 'fragment_file') and e_.args]
+    probs, n = [], 0
+    for ev, s in c.log:
+        if ev.kind != 'yield' or not ev.args or not is_token(ev.args[0]):
+            continue
+        items = ev.fields(ev.args[0]).get('@data_value_items', '')
+        try:
+            le = ast.parse(items, mode='eval').body
+        except SyntaxError:
+            continue
+        if not (isinstance(le, ast.List) and len(le.elts) == 1):
+            continue
+        pf = dict((f_, v_) for t_, f_, v_ in s.heap if t_ == norm(le.elts[0]))
+        try:
+            de = ast.parse(pf.get('@data_value', ''), mode='eval').body
+        except SyntaxError:
+            continue
+        if not (isinstance(de, ast.BinOp) and isinstance(de.op, ast.Add)):
+            continue
+        item = norm(de.right)
+        if item.startswith('ITEM('):
+            continue
+        whole = [a_ for a_ in frag_calls if a_[0] == item]
+        if not whole:
+            continue
+        n += 1
+        k_ = _fast_path_bound(ev.conds, item, max_param)
+        if k_ is None:
+            probs.append('whole message %s sent in one PDV on a path that does not bound its length by the limit' % item)
+        elif k_ < K_WANT[0]:
+            probs.append('a message of up to limit - %d bytes is sent as one PDV without fragmenting: the P-DATA-TF length is payload + %d, '
+                         'up to %d beyond the negotiated maximum' % (k_, K_WANT[0], K_WANT[0] - k_))
+    return sorted(set(probs)), n
+
+
 def bytes_fragmenter(repo, hier, rep=None):
     """The bytes fragmenter as one loop: ``fragment`` with the ``chunks`` generator fused in (whether the tree keeps them apart
     or has merged them), abstractly interpreted; every yielded (chunk, flag) pair is decomposed into position / width / stop of
@@ -695,6 +781,14 @@ def run(repo, rep):
     p4, p5 = [], []
     seen_cmd = seen_data = False
     data_seen_on_path = False
+    frag_calls = [e_.args for e_, _s in c.log if e_.kind in ('fragment', 'fragment_file') and e_.args]
+
+    def _foldflag(t):
+        from ..arith import CannotEvaluate, eval_term
+        try:
+            return str(eval_term(ast.parse(t, mode='eval').body, {}))
+        except (CannotEvaluate, SyntaxError, Exception):
+            return t
     for ev, s in c.log:
         if True:
             data_seen_on_path = any(e.kind in ('fragment', 'fragment_file') and 'data_set' in e.args[0] for e in s.trail)
@@ -771,23 +865,57 @@ def run(repo, rep):
                             data_seen_on_path = True
                         elif data_seen_on_path:
                             p5.append('a command fragment is emitted after a data fragment')
+                    if not okdv:
+                        # the whole message in one PDV, outside the fragmenter: allowed with the flag the fragmenter would give
+                        # its only fragment (``last``) and on a path that bounds the message by the fragment width
+                        whole = [a_ for a_ in frag_calls if a_[0] == item]
+                        if whole:
+                            want_flag = whole[0][3] if len(whole[0]) > 3 else None
+                            if want_flag is None or _foldflag(bit) != _foldflag(want_flag):
+                                p5.append('whole message %s sent in one PDV with control header %s, the fragmenter flags its only '
+                                          'fragment %s' % (item, bit, want_flag))
+                            k_ = _fast_path_bound(ev.conds, item, max_param)
+                            if k_ is None:
+                                p5.append('whole message %s sent in one PDV on a path that does not bound its length by the limit' % item)
+                            elif k_ < K_WANT[0]:
+                                p5.append('a message of up to limit - %d bytes is sent as one PDV without fragmenting: the P-DATA-TF '
+                                          'length is payload + %d, up to %d beyond the negotiated maximum' % (k_, K_WANT[0], K_WANT[0] - k_))
+                            okdv = True
                 if not okdv:
                     p5.append('PDV value %s is not control byte + fragment of the same iteration' % dv)
     if not seen_cmd:
         p4.append('command set is never fragmented')
     if not seen_data:
         p4.append('data set is never fragmented')
-    # structural order: the command loop statement precedes the data block at top level
-    body = [st for st in enc.node.body]
-    idx_cmd = idx_data = None
-    for i, st in enumerate(body):
-        txt = norm(st)
-        if isinstance(st, ast.For) and 'encoded_command_set' in norm(st.iter) or (isinstance(st, ast.For) and 'command' in norm(st.iter)):
-            idx_cmd = i if idx_cmd is None else idx_cmd
-        if 'data_set' in txt and isinstance(st, (ast.If, ast.For, ast.Try)) and idx_data is None and 'fragment' in txt:
-            idx_data = i
-    if idx_cmd is None or idx_data is None or idx_cmd > idx_data:
-        p5.append('the command-fragment loop does not precede the data-fragment block')
+    # order: on no path is a PDU carrying command bytes yielded after one carrying data-set bytes (decided on the payloads of
+    # the yields along each path, whichever loops / fast paths produce them)
+    def _payload_kind(ev_, st_):
+        tok_ = ev_.args[0] if ev_.args else ''
+        if not is_token(tok_):
+            return None
+        items_ = ev_.fields(tok_).get('@data_value_items', '')
+        try:
+            le_ = ast.parse(items_, mode='eval').body
+        except SyntaxError:
+            return None
+        if not (isinstance(le_, ast.List) and len(le_.elts) == 1):
+            return None
+        pf_ = dict((f_, v_) for t_, f_, v_ in st_.heap if t_ == norm(le_.elts[0]))
+        dv_ = pf_.get('@data_value', '')
+        return 'data' if 'data_set' in dv_ else 'command' if 'command_set' in dv_ else None
+    for s_fin, how_fin in fin:
+        seen_data_yield = False
+        for e_ in s_fin.trail:
+            if e_.kind != 'yield':
+                continue
+            k_ = _payload_kind(e_, s_fin)
+            if k_ == 'data':
+                seen_data_yield = True
+            elif k_ == 'command' and seen_data_yield:
+                p5.append('a PDU with command-set bytes is yielded (line %d) after one with data-set bytes' % e_.line)
+    if not any(_payload_kind(e_, s_) == 'command' for e_, s_ in c.log if e_.kind == 'yield') or \
+            not any(_payload_kind(e_, s_) == 'data' for e_, s_ in c.log if e_.kind == 'yield'):
+        p5.append('encode does not yield both command-set and data-set PDUs')
     rep.check(not p4, 'C06.S4', 'dimsemessages:DIMSEMessage.encode:flag-literals', enc.loc(),
               'command (1,3), data (0,2) for bytes and file data sets', '; '.join(sorted(set(p4))))
     rep.check(not p5, 'C06.S5', 'dimsemessages:DIMSEMessage.encode:order-context', enc.loc(),
